@@ -44,7 +44,7 @@ VARIANT_SCRIPTS = {
     "ipv6": ["pasv-twice", "pasv-no-transfer", "list", "retr"],
     "limited": ["login-only", "relogin", "user-only", "bad-pass", "user-then-other", "retr"],
     "other-address": ["retr", "stor", "list", "pasv-twice", "retr-then-quit"],
-    "tail": ["retr-dstop", "list-dstop", "mlsd-dstop", "retr-dstop-quit"],
+    "tail": ["retr-dstop", "list-dstop", "mlsd-dstop", "retr-dstop-quit", "retr-dstop-data", "list-dstop-data-list"],
 }
 # scripts of the variants only
 EXTRA_SCRIPTS = {
@@ -52,6 +52,9 @@ EXTRA_SCRIPTS = {
     "list-dstop": ["PASV", "@data", "@dstop", "LIST", "PWD"],
     "mlsd-dstop": ["EPSV", "@data", "@dstop", "MLSD d", "PWD"],
     "retr-dstop-quit": ["EPSV", "@data", "@dstop", "RETR d/f", "QUIT"],
+    # ... and the peer makes its next data connection while the tail of the last transfer is still unsent
+    "retr-dstop-data": ["EPSV", "@data", "@dstop", "RETR d/f", "@data", "PWD"],
+    "list-dstop-data-list": ["PASV", "@data", "@dstop", "LIST", "@data", "LIST d", "PWD"],
     "user-only": ["USER bob"],
     "bad-pass": ["USER bob", "PASS bad", "USER bob"],
     "user-then-other": ["USER bob", "PASS pw", "USER carol", "USER anonymous"],
